@@ -107,6 +107,10 @@ def _sig(d):
     return tuple(d.get(k) for k in ("kind", "prog", "np", "rank", "step", "var", "got", "exp"))
 
 
+def _sig_loose(d):     # which foreign value is seen may depend on what ran before; where and what kind may not
+    return tuple(d.get(k) for k in ("kind", "prog", "np", "rank", "step", "var"))
+
+
 def run(ctx):
     binary = mpix.build_smpi("c36_priv", ["c36/priv.c"])
     tmp = common.tmpdir("c36")
@@ -160,6 +164,7 @@ def run(ctx):
                                 g["count"] += 1
                                 order = (k, np_, int(d["idx"]), int(d["rank"]), int(d["step"]), d["var"])
                                 case = {"k": k, "np": np_, "mode": mode, "idx": int(d["idx"]), "line": list(ls[int(d["idx"])]) if int(d["idx"]) >= 0 else None}
+                                case["shard_lo"] = job[5]
                                 if int(d["idx"]) < 0:   # seen by the check of the loader's initial values: depends on what the
                                     case["range"] = [job[5], job[5] + 1]   # other ranks already did in the first program of the shard
                                 if g["first"] is None or order < g["first"][0]:
@@ -252,14 +257,24 @@ def _rerun(tmp, binary, case, want):
     path, ls = write_file(tmp, case["k"], case["np"])
     if case["idx"] >= 0 and list(ls[case["idx"]]) != list(case["line"]):
         return False, "program list changed: line %d is %s" % (case["idx"], ls[case["idx"]])
+    def once(lo, hi):
+        rc, out, err = mpix.smpirun(tmp, binary, case["np"], [path, lo, hi], cfg=["smpi/privatization:" + case["mode"]] + CFG,
+                                    timeout=300, nhosts=8)
+        vs = [d for t, d in mpix.records(out) if t == "V"]
+        ns = [d for t, d in mpix.records(out) if t == "N"]
+        return rc, vs, ns, "rc=%s\n%s\n%s" % (rc, "\n".join(l for l in out.splitlines() if l[:1] in "VN")[:1500], err[-300:])
+
     lo, hi = (case["idx"], case["idx"] + 1) if not case.get("range") else case["range"]
-    rc, out, err = mpix.smpirun(tmp, binary, case["np"], [path, lo, hi], cfg=["smpi/privatization:" + case["mode"]] + CFG,
-                                timeout=120, nhosts=8)
-    vs = [d for t, d in mpix.records(out) if t == "V"]
-    ns = [d for t, d in mpix.records(out) if t == "N"]
+    rc, vs, ns, seen = once(lo, hi)
     if want["kind"] == "crash":
-        return (rc != 0 or len(ns) != case["np"]), "rc=%s %s" % (rc, err[-300:])
-    return any(_sig(v) == _sig(want) for v in vs), "rc=%s\n%s\n%s" % (rc, "\n".join(out.splitlines()[:12]), err[-300:])
+        return (rc != 0 or len(ns) != case["np"]), seen
+    if any(_sig_loose(v) == _sig_loose(want) for v in vs):
+        return True, seen
+    # not alone: the same programs as in the run, from the first program of the shard (deterministic as well)
+    if case.get("shard_lo") is not None and case["idx"] >= 0 and case["shard_lo"] < case["idx"]:
+        rc, vs, ns, seen2 = once(case["shard_lo"], case["idx"] + 1)
+        return any(_sig(v) == _sig(want) for v in vs), "alone:\n%s\nin sequence from program %d:\n%s" % (seen, case["shard_lo"], seen2[-1500:])
+    return False, seen
 
 
 def replay(ctx, case):
